@@ -561,7 +561,48 @@ func (ci *concr) runB(fn *ssa.Function, args []cval, bindings []cval, depth int)
 					for _, a := range x.Call.Args {
 						as = append(as, get(a))
 					}
-					env[x] = concrBuiltin(bi.Name(), as, x.Type())
+					switch bi.Name() {
+					case "copy":
+						// copy(dst, src): the elements are written into the destination's array
+						n, okc := -1, false
+						if len(as) == 2 && as[0].kind == cSlice {
+							var src []cval
+							switch as[1].kind {
+							case cSlice:
+								src, okc = as[1].arr.e[as[1].lo:as[1].hi], true
+							case cConst:
+								if sv, ok := bytesOf(as[1]); ok {
+									for i := 0; i < len(sv); i++ {
+										src = append(src, mkInt(int(sv[i])))
+									}
+									okc = true
+								}
+							case cNilPtr:
+								okc = true
+							}
+							if okc {
+								n = as[0].hi - as[0].lo
+								if len(src) < n {
+									n = len(src)
+								}
+								tmp := append([]cval{}, src[:n]...)
+								copy(as[0].arr.e[as[0].lo:as[0].lo+n], tmp)
+							}
+						} else if len(as) == 2 && as[0].kind == cNilPtr {
+							n, okc = 0, true
+						}
+						if !okc {
+							return concrOutcome{status: "unknown", why: "copy that is not followed at " + ci.w.pos(x.Pos())}
+						}
+						env[x] = mkInt(n)
+					case "len", "cap", "min", "max", "append":
+						env[x] = concrBuiltin(bi.Name(), as, x.Type())
+					case "print", "println":
+					default:
+						// a builtin with an effect the interpreter does not model (delete, clear, …): give up rather than go on with
+						// a state that is no longer the program's
+						return concrOutcome{status: "unknown", why: "builtin " + bi.Name() + " at " + ci.w.pos(x.Pos())}
+					}
 					continue
 				}
 				callee := x.Call.StaticCallee()
@@ -581,6 +622,10 @@ func (ci *concr) runB(fn *ssa.Function, args []cval, bindings []cval, depth int)
 					case "panic":
 						return out
 					case "unknown":
+						if ci.heap {
+							// the callee may have written part of the heap before it was given up: nothing after it is known
+							return out
+						}
 						// the result is unknown, the caller may still not depend on it
 						env[x] = unknownResult(x.Type())
 					default:
@@ -591,6 +636,24 @@ func (ci *concr) runB(fn *ssa.Function, args []cval, bindings []cval, depth int)
 						}
 					}
 					continue
+				}
+				if ci.heap {
+					// a call that is not followed must not be able to change what the interpreter tracks
+					pure := false
+					if callee != nil && callee.Pkg != nil {
+						switch callee.Pkg.Pkg.Path() {
+						case "strings", "bytes", "unicode", "unicode/utf8", "strconv", "fmt", "errors", "math", "math/bits":
+							pure = true
+						}
+					}
+					if !pure {
+						for _, a := range x.Call.Args {
+							switch get(a).kind {
+							case cSlice, cRef, cArr, cElem, cMapV:
+								return concrOutcome{status: "unknown", why: "a tracked value is handed to a call that is not followed at " + ci.w.pos(x.Pos())}
+							}
+						}
+					}
 				}
 				env[x] = unknownResult(x.Type())
 			case *ssa.Alloc:
@@ -797,6 +860,10 @@ func isNilValuedConst(v ssa.Value) bool {
 
 func concrBuiltin(name string, as []cval, t types.Type) cval {
 	switch name {
+	case "cap":
+		if len(as) == 1 && as[0].kind == cSlice {
+			return mkInt(len(as[0].arr.e) - as[0].lo)
+		}
 	case "len":
 		if len(as) == 1 {
 			switch as[0].kind {
